@@ -15,6 +15,12 @@ SUBMISSIONS = {
     "unused": "def add(a, b):\n    return a + b\nleftover = 5\nfor i in range(2):\n    print(i)\n",
     "parts": "print('pre')\n##### Part 1\nfirst = 1\nprint(first)\n##### Part 2\nsecond = undefined_thing\n",
     "mathy": "import math\narea = math.pi * 2 ** 2 + 1\nprint(area)\n",
+    # attribute assignments on values of builtin types: TIFA records them in the value's method table
+    "attrassign": "def add(a, b):\n    return a + b\nname = ' ada '.strip()\nname.upper = 'ADA'\nnums = [1].copy()\nnums.append = 3\nprint('hello')\nprint(add(1, 1))\n",
+    "attrlit": ("def add(a, b):\n    return a + b\nname = 'ada'\nname.upper = 'ADA'\npair = (1, 2)\npair.count = 3\nn = 5\nn.bit_length = 2\n"
+                "print('hello')\nprint(add(1, 1))\n"),
+    "methodcall": ("def add(a, b):\n    return a + b\nname = ' ada '.strip()\nprint(name.upper())\nword = 'x'\nprint(word.upper())\n"
+                   "pair = (1, 2)\nprint(pair.count(1))\nnums = [1].copy()\nnums.append(2)\nprint('hello')\nprint(add(1, 1))\n"),
 }
 
 # instructor control scripts; `writes` = process-wide slots the script dirties (for the TLA+ model)
